@@ -2,6 +2,7 @@
     implementation's outputs with the binary64 / binary32 instances and exact rationals. *)
 From Coq Require Import List NArith ZArith Bool Floats SpecFloat QArith.
 From LinfaVerif Require Export Common.Num Common.NdSum Common.Run Common.B32 Common.QF C03.Model.
+From LinfaVerif Require Import C03.Sigmoid.
 Import ListNotations.
 
 Definition o64 := B64_ops.
@@ -25,9 +26,9 @@ Inductive case :=
 | CTREE (id : N) (t : tree (F := float) N) (X : list (list float)) (out : list N)
 (* isotonic interpolation on an n x 1 batch *)
 | CISO (id : N) (reg resp xs out : list float)
-(* affine maps through matrixmultiply, recomputed exactly over Q: out = (X - mean) W + b within
-   the rounding bound (kind 0), or labs = arg-max of that (kind 1) *)
-| CAFF (id kind : N) (mean : list float) (W : list (list float)) (b : list float)
+(* affine maps through matrixmultiply, recomputed exactly over Q: out = ((X - mean) / scale) W + b
+   within the rounding bound (kind 0), or labs = arg-max of that (kind 1); empty mean / scale = none *)
+| CAFF (id kind : N) (mean scale : list float) (W : list (list float)) (b : list float)
        (X : list (list float)) (out : list (list float)) (labs : list N)
 (* a correspondence code evaluated by the Rust harness (transliterations that need libm) *)
 | CEXT (id code : N).
@@ -117,7 +118,14 @@ Definition sigmoid_shape (f p : spec_float) : bool :=
       && (if Qle_bool fq 0 then Qle_bool (1 # 2) pq else true)
       && (if Qltb (-1 # 1) fq then Qle_bool (pq * (2 + fq)) (1 + slack20 * (2 + fq)) else true)
       && (if Qltb fq 1 then Qle_bool ((1 - fq) - slack20 * (2 - fq)) (pq * (2 - fq)) else true)
+      (* and the tight test: p = 1/(1+exp f) up to 2^-20, by verified interval arithmetic *)
+      && sigmoid_within f p
   end.
+
+(* q2 <= q1 up to rounding: e/(1+e) evaluated in binary32 is monotone only up to an ulp or two
+   (numerator and denominator move together), so the order is tested with a relative slack 2^-20 *)
+Definition mono_le (q2 q1 : spec_float) : bool :=
+  SFleb q2 (SFadd p32 e32 q1 (SFmul p32 e32 q1 (S754_finite false 8388608 (-43)))).
 
 Definition run_pl (is32 : bool) (a b : float) (pts : list (float * (Z * (Z * Z)))) : N * N :=
   let dec := map (fun t => let '(x, (fb, (eb, pb))) := t in
@@ -141,7 +149,7 @@ Definition run_pl (is32 : bool) (a b : float) (pts : list (float * (Z * (Z * Z))
           && forallb (fun t1 => let '(f1, _, _, p1) := t1 in
                forallb (fun t2 => let '(f2, _, _, p2) := t2 in
                  match p1, p2 with
-                 | Some q1, Some q2 => if SFleb f1 f2 then SFleb q2 q1 else true
+                 | Some q1, Some q2 => if SFleb f1 f2 then mono_le q2 q1 else true
                  | _, _ => true
                  end) dec) dec) 512 in
   (corr, oracle).
@@ -176,33 +184,36 @@ Definition qcol (W : list (list Q)) (k : nat) : list Q := map (fun r => nth k r 
 Definition gamma (p : nat) : Q := (inject_Z (Z.of_nat p + 4)) * (1 # 4503599627370496).   (* (p+4) 2^-52 *)
 
 (* exact value and magnitude bound of output k for row x *)
-Definition aff_q (mean : list Q) (W : list (list Q)) (b : list Q) (x : list Q) (k : nat) : Q * Q :=
+Definition aff_q (mean scale : list Q) (W : list (list Q)) (b : list Q) (x : list Q) (k : nat) : Q * Q :=
   let xc := match mean with [] => x | _ => map2 Qminus x mean end in
+  let xc := match scale with [] => xc | _ => map2 Qdiv xc scale end in
   let wk := qcol W k in
   let bk := nth k b 0%Q in
   (Qred (Qdot xc wk + bk), Qred (Qdot (map Qabs_ xc) (map Qabs_ wk) + Qabs_ bk)).
 
-Definition run_aff (kind : N) (mean : list float) (W : list (list float)) (b : list float)
+Definition run_aff (kind : N) (mean scale : list float) (W : list (list float)) (b : list float)
   (X out : list (list float)) (labs : list N) : N * N :=
   let mq := map f64_Q mean in
+  let sq := map f64_Q scale in
   let Wq := map (map f64_Q) W in
   let bq := map f64_Q b in
   let p := length W in
   let k := match W with [] => length b | r :: _ => length r end in
-  let finite := forallb (forallb f64_finite) (mean :: b :: W ++ X ++ out) in
+  let finite := forallb (forallb f64_finite) (mean :: scale :: b :: W ++ X ++ out)
+                && forallb (fun q => negb (Qeq_bool q 0)) sq in
   let ok :=
     match kind with
     | 0%N =>
         Nat.eqb (length out) (length X)
         && forallb (fun xo => let '(x, orow) := xo in
              Nat.eqb (length orow) k
-             && forallb (fun j => let '(q, s) := aff_q mq Wq bq (map f64_Q x) j in
+             && forallb (fun j => let '(q, s) := aff_q mq sq Wq bq (map f64_Q x) j in
                                   Qle_bool (Qabs_ (f64_Q (nth j orow nan) - q)) (gamma p * s))
                         (seq 0 k)) (combine X out)
     | _ =>
         Nat.eqb (length labs) (length X)
         && forallb (fun xl => let '(x, l) := xl in
-             let qs := map (aff_q mq Wq bq (map f64_Q x)) (seq 0 k) in
+             let qs := map (aff_q mq sq Wq bq (map f64_Q x)) (seq 0 k) in
              match nth_error qs (N.to_nat l) with
              | None => false
              | Some (ql, sl) =>
@@ -221,7 +232,7 @@ Definition run_case (c : case) : verdict :=
   | CLIN id kind contig w b X out labs => (id, run_lin kind contig w b X out labs)
   | CTREE id t X out => (id, run_tree t X out)
   | CISO id reg resp xs out => (id, run_iso reg resp xs out)
-  | CAFF id kind mean W b X out labs => (id, run_aff kind mean W b X out labs)
+  | CAFF id kind mean scale W b X out labs => (id, run_aff kind mean scale W b X out labs)
   | CEXT id code => (id, (code, 0%N))
   end.
 
